@@ -268,8 +268,8 @@ def search_rename(ctx: Ctx) -> SearchResult:
 				res.findings.append(f)
 
 	# 2. generated programs × adversarial renamings
-	n_prog = ctx.scale(36, 700)
-	per_prog = ctx.scale(3, 6)
+	n_prog = ctx.scale(36, 320)
+	per_prog = ctx.scale(3, 5)
 	for origin, src, tag in program_stream(ctx, rng, n_prog):
 		try:
 			domain = c08gen.renaming_domain(src, reserved)
